@@ -276,6 +276,65 @@ func c16Gen(c *Ctx) {
 		in = append(in, 3, 0, 0, 6, 0, 0, 3, 1, 0, 6, 1, 0)
 		t.Try(fmt.Sprintf("random-kind%d", kind), in, nops >= 3 && len(kinds) >= 2)
 	})
+	// dense sets: whole words filled without a gap (Len == Cap: "universe" sets used to clamp another set), one gap,
+	// one extra member, against scattered sets reaching beyond them; every bulk operation in both directions
+	c.Each(c.N(1500, 30000), func(i int, t *T) {
+		r := t.R
+		kind := int64(i % 3)
+		in := []int64{kind}
+		full := int64(r.Intn(2))
+		words := 1 + r.Intn(3)
+		if r.Intn(6) == 0 {
+			words = 4 + r.Intn(13)
+		}
+		hi := int64(64 * words)
+		gap := int64(-1)
+		switch r.Intn(4) {
+		case 0:
+			gap = r.Int63n(hi)
+		case 1:
+			gap = hi - 1
+		}
+		for v := int64(0); v < hi; v++ {
+			if v != gap {
+				in = append(in, 0, full, v)
+			}
+		}
+		if r.Intn(5) == 0 {
+			in = append(in, 0, full, hi+int64(r.Intn(70)))
+		}
+		oth := 1 - full
+		for j, m := 0, 1+r.Intn(7); j < m; j++ {
+			var a int64
+			switch r.Intn(4) {
+			case 0:
+				a = r.Int63n(hi)
+			case 1:
+				a = hi + int64(r.Intn(3)) - 1
+			default:
+				a = r.Int63n(hi + 200)
+			}
+			in = append(in, 0, oth, a)
+		}
+		if r.Intn(3) == 0 {
+			in = append(in, 5, oth, r.Int63n(hi+300))
+		}
+		code := int64(9 + r.Intn(3))
+		tgt := int64(r.Intn(2))
+		if kind == 2 { // dsz.Bits has no bulk operations: membership over the filled words
+			code, tgt = 2, full
+		}
+		in = append(in, code, tgt, hi-1)
+		if r.Intn(3) == 0 {
+			in = append(in, 1, tgt, r.Int63n(hi+100), int64(9+r.Intn(3)), 1-tgt, 0)
+			if kind == 2 {
+				in = in[:len(in)-3]
+			}
+		}
+		in = append(in, 3, 0, 0, 6, 0, 0, 4, 0, 0, 3, 1, 0, 6, 1, 0)
+		t.C.Count("op", c16Names[code])
+		t.Try(fmt.Sprintf("dense-kind%d", kind), in, true)
+	})
 }
 
 // shrinking must not turn Remove/Contains of a huge value into Add/Grow of it (which would have to allocate the set)
